@@ -177,3 +177,24 @@ Theorem C05_rejects_permuted_jump_table :
   validate ex_src_jt ex_jt_perm [Some 0; Some 1; Some 2; Some 3; Some 4; Some 5; None; Some 7]%nat = false.
 Proof. exact ex_jt_perm_rejected. Qed.
 Print Assumptions C05_rejects_permuted_jump_table.
+
+(* register lists: the side condition the validator applies to every register-list operand group of the allocated
+   program (reported by InstAPI::query_rw_info as consecutive_lead_count): an accepted group is exactly the register
+   sequence the CPU derives from the encoded first register, and its member i is register (first + i) mod 32 *)
+Theorem C05_register_list_is_what_the_cpu_uses : forall ls, consec_ok ls = true ->
+  match ls with
+  | [] => True
+  | LReg g id :: _ => ls = expand_list g id (length ls)
+  | LSlot _ :: _ => False
+  end.
+Proof. exact consec_ok_sound. Qed.
+Print Assumptions C05_register_list_is_what_the_cpu_uses.
+
+Theorem C05_register_list_members : forall g n id i, (id < 32)%N -> (i < n)%nat ->
+  nth i (expand_list g id n) (LSlot 0) = LReg g (N.modulo (id + N.of_nat i) 32).
+Proof. exact expand_list_nth. Qed.
+Print Assumptions C05_register_list_members.
+
+Theorem C05_rejects_non_consecutive_list : consec_ok [LReg 1 1; LReg 1 3] = false /\ consec_ok [LReg 1 30; LReg 1 31; LReg 1 0] = true.
+Proof. exact (conj ex_list_gap ex_list_wrap). Qed.
+Print Assumptions C05_rejects_non_consecutive_list.
